@@ -315,6 +315,7 @@ pub struct Ctx {
     known: Vec<KnownFinding>,
     machinery_errors: Vec<String>,
     selfcheck_failures: Vec<String>,
+    group_share_s: Option<f64>,
     pub states: u64,
     pub transitions: u64,
     pub traces_validated: u64,
@@ -415,6 +416,7 @@ impl Ctx {
             known: load_known_findings(&Path::new(VERIF_ROOT).join("KNOWN_FINDINGS.txt")),
             machinery_errors: vec![],
             selfcheck_failures: vec![],
+            group_share_s: None,
             states: 0,
             transitions: 0,
             traces_validated: 0,
@@ -430,6 +432,12 @@ impl Ctx {
     }
 
     /// Seconds left in the wall budget.
+    /// Limits the wall time of the next `run_cases` group to `share_s` seconds (or to what is
+    /// left of the run's budget, whichever is less); a group cut short prints its CAP line.
+    pub fn next_group_share(&mut self, share_s: f64) {
+        self.group_share_s = Some(share_s);
+    }
+
     pub fn remaining_s(&self) -> f64 {
         match self.deadline {
             Some(d) => d.saturating_duration_since(Instant::now()).as_secs_f64(),
@@ -558,7 +566,15 @@ impl Ctx {
         let results: Vec<Mutex<Option<Result<CaseOut, String>>>> =
             (0..n).map(|_| Mutex::new(None)).collect();
         let cursor = AtomicUsize::new(0);
-        let deadline = if self.is_replay() { None } else { self.deadline };
+        let mut deadline = if self.is_replay() { None } else { self.deadline };
+        // an optional wall share for this group only (consumed by this call)
+        if let (Some(share), false) = (self.group_share_s.take(), self.is_replay()) {
+            let g = Instant::now() + Duration::from_secs_f64(share);
+            deadline = Some(match deadline {
+                Some(d) if d < g => d,
+                _ => g,
+            });
+        }
         let capped = AtomicBool::new(false);
         let workers = workers.max(1).min(n.max(1));
         let pool_threads = self.worker_rayon_threads;
